@@ -411,3 +411,34 @@ func VerifC19Concurrent() {
 	verifAssert(killErr != nil, "the Kill of the resisting process fails at its deadline")
 	verifReach("done")
 }
+
+// The termination event does not depend on the context of the Exec request or on a reader being
+// parked at the moment of exit: several processes are started with request-scoped contexts that
+// are cancelled as soon as Exec returns, they all exit, and only then the consumer starts reading:
+// exactly one event per process.
+func VerifC19EventsAfterContextDone() {
+	o := verifInstallOS()
+	s := NewLocalSupervisor()
+	verifDaemon("Exec$1")
+	n := 2
+	names := []string{"runtime-1", "extension-a-1"}
+	for i := 0; i < n; i++ {
+		ctx, cancel := context.WithCancel(context.Background())
+		verifAssert(s.Exec(ctx, &model.ExecRequest{Domain: "runtime", Name: names[i], Path: "/bin/proc"}) == nil, "exec")
+		cancel()
+	}
+	for i := 0; i < n; i++ {
+		o.die(o.procs[i], syscall.WaitStatus(uint32(i)<<8))
+	}
+	verifSettle() // every Wait goroutine has noticed the exit; nobody is reading yet
+	evCh, _ := s.Events(context.Background(), nil)
+	seen := map[string]int{}
+	for i := 0; i < n; i++ {
+		ev := <-evCh
+		seen[*ev.Event.Name]++
+	}
+	for i := 0; i < n; i++ {
+		verifAssert(seen[names[i]] == 1, "exactly one termination event per process, whatever happened to the context of its Exec request")
+	}
+	verifReach("done")
+}
